@@ -388,15 +388,19 @@ class Buffer:
                 self._add_event(current_obs, "transfer", "stopped")
                 break
 
+            # Pick the slowest rate to transfer; both tiers must move the
+            # same amount of data each timestep
+            transfer_rate = min(
+                self.hot[b].max_ingest_data_rate, self.cold[b].max_data_rate
+            )
             check = self.hot[b].receive_observation(
                 current_obs,
                 data_left_to_transfer,
-                # Pick the slowest rate to transfer
-                min(self.hot[b].max_ingest_data_rate, self.cold[b].max_data_rate)
+                transfer_rate
             )
 
             data_left_to_transfer = self.cold[b].transfer_observation(
-                current_obs, self.cold[b].max_data_rate, data_left_to_transfer
+                current_obs, transfer_rate, data_left_to_transfer
             )
             if check != data_left_to_transfer:
                 raise RuntimeError(
